@@ -7,8 +7,10 @@ namespace Driver.CacheP
 def parseOp (s : String) : Option Op :=
   if s == "t" then some .tick
   else if s == "s" then some .stop
-  else if s.startsWith "rc" then (s.drop 2).toNat?.map (fun d => .render d true)
-  else if s.startsWith "ru" then (s.drop 2).toNat?.map (fun d => .render d false)
+  else if s.startsWith "rcd" then (s.drop 3).toNat?.map (fun d => .render d true 1)     -- cached, debug tags on
+  else if s.startsWith "rud" then (s.drop 3).toNat?.map (fun d => .render d false 1)    -- uncached, debug tags on
+  else if s.startsWith "rc" then (s.drop 2).toNat?.map (fun d => .render d true 0)
+  else if s.startsWith "ru" then (s.drop 2).toNat?.map (fun d => .render d false 0)
   else if s.startsWith "a" then (s.drop 1).toNat?.map (fun d => .advance d)
   else if s.startsWith "T" then (s.drop 1).toInt?.map (fun d => .setTTL d)
   else if s.startsWith "I" then (s.drop 1).toInt?.map (fun d => .setInterval d)
@@ -25,7 +27,7 @@ def run (okbits : String) (hashes : List Nat) (ttl : Int) (ops : List String) : 
   let oks := okbits.toList.map (· == '1')
   let w : World := {
     parse := fun d => if oks.getD d false then .ok d else .error d,
-    rend := fun a => a,
+    rend := fun a o => a + 1000 * o,     -- the output names the options it was rendered with
     hash := fun d => hashes.getD d d }
   let keys := hashes.eraseDups
   let mut s := init ttl
